@@ -26,13 +26,14 @@ CLAIMED = {
             "`C02_stream` lifts it to any sequence of frames by induction; `spec_decode_encode` pins the decoder against the encoder for all "
             "frames. The model is tied to the real parser by correspondence on all 256 first bytes x length classes x masks and random "
             "multi-frame streams; the real outputs are judged by the same decoder.", "", "DESIGN.md §6 C02"),
-    "C03": ("Lean 4 theorems C03_recv_strict / C03_segmentation (outcomes depend only on the pending bytes, not on chunk boundaries)" + T_CORR + " (metamorphic)",
-            "Proof: `C03_recv_strict` (recv_strict returns exactly the next n pending bytes over any chunking) and `C03_segmentation` (two "
-            "connections with equal pending bytes, however split between buffer and chunks, report identical outcomes for every complete frame "
-            "and are left with identical pending bytes). The timeout clause (a TIMEOUT at any byte position is resumable, none lost or "
-            "duplicated) and the handshake/frames boundary are held by correspondence on identical schedules (all partitions of short streams, "
-            "a timeout x1/x2 at every byte position, random schedules) and by the metamorphic oracle on the real code; the Lean resumption "
-            "theorem for timeouts is not yet proved (stated in DESIGN.md).", "Not modelled: EAGAIN+select path, SSL 'timed out' message matching.", "DESIGN.md §6 C03"),
+    "C03": ("Lean 4 theorems C03_segmentation, C03_timeouts, C03_resume (outcomes depend only on the bytes: any chunking, a TIMEOUT at any byte position any number of times)" + T_CORR + " (metamorphic)",
+            "Proof: `C03_recv_strict`/`C03_segmentation` (equal pending bytes, however split between buffer and chunks, give identical outcomes "
+            "and identical pending bytes); `C03_timeouts` (after k calls that each raised TIMEOUT — inside header, extended length, mask key or "
+            "payload — the stream from the start of the frame in progress, re-encoded from the stage fields ++ buffer ++ transport, is unchanged "
+            "and the parser state consistent); `C03_resume` (the retried call returns exactly the frame the RFC decoder reads from the original "
+            "bytes and leaves exactly the rest; uses `recvFrame_virt`: stage fields are a lossless encoding of the bytes consumed). The "
+            "handshake/frames boundary and automatic replies under segmentation are held by correspondence on identical schedules and the "
+            "metamorphic oracle on the real code.", "Not modelled: EAGAIN+select path, SSL 'timed out' message matching.", "DESIGN.md §6 C03"),
     "C04": ("Lean 4 theorem C04_reassembly (loop over any fragmented message with interleaved control frames, concrete parser+transport model)" + T_CORR,
             "Proof: `C04_reassembly` — for every message (any number of fragments incl. empty ones, text/binary, any pings<=125/pongs before "
             "each fragment) over any chunking, one recv_data_frame() call returns it once with the first fragment's opcode and the in-order "
